@@ -110,7 +110,8 @@ class Hub:
         here; the driver decides who runs next (spec -> code replay of a TLC schedule)."""
         if self.scripted is not None and self.current is not None and \
                 getattr(self.current, 'proc', None) is not None and \
-                (rec['q'] is self.scripted or rec['q'] == 'ws') and rec['op'] != 'task_done':
+                (rec['q'] is self.scripted or rec['q'] == 'ws') and \
+                rec['op'] not in getattr(self, 'script_skip', ('task_done',)):
             self.yield_now()
 
     def step(self, task):
